@@ -12,7 +12,8 @@ from ..runner import new_result, viol, bump, case_seed
 PID = 'C19'
 LEVEL = 'exploration'
 MISC = ['percolate_network', 'directed_percolate_network', 'get_infected_nodes', 'estimate_SIR_prob_size', 'estimate_directed_SIR_prob_size',
-        'estimate_SIR_prob_size_from_dir_perc', 'subsample', 'get_time_shift', 'get_Pk', 'get_Pnk', 'estimate_R0']
+        'estimate_SIR_prob_size_from_dir_perc', 'subsample', 'get_time_shift', 'get_Pk', 'get_Pnk', 'estimate_R0',
+        'Epi_Prob_discrete', 'Attack_rate_discrete', 'Attack_rate_cts_time', 'get_PGF', 'get_PGFPrime', 'get_PGFDPrime']
 RULE = ('cases: registry of call templates: 12 simulators (both modes, all container forms for the initial sets, weights, spec graphs, defaultdict ICs), '
         '48 ODE entry points + 4 final-size functions (array arguments included), 11 percolation / helper functions; each template instantiated on seeded '
         'random inputs.  Non-trivial = the call has at least one mutable argument besides the graph; distinct = (entry point, mode, graph iso key).')
@@ -219,6 +220,30 @@ def run_case(case):
             args = [np.array([0.0, 1.0, 2.0]), [1, 5, 9], 4]
         elif name in ('get_Pk', 'get_Pnk'):
             args = [G]
+        elif name in ('Epi_Prob_discrete', 'Attack_rate_discrete', 'Attack_rate_cts_time', 'get_PGF', 'get_PGFPrime', 'get_PGFDPrime'):
+            # the caller's degree distribution: from get_Pk, or a hand-made / truncated one that does not sum to 1 exactly, or raw counts
+            Pk = dict(EoN.get_Pk(G))
+            form = case['seed'] % 3
+            if form == 1:
+                Pk = {k: 0.97 * v for k, v in Pk.items()}
+            elif form == 2:
+                Pk = {k: float(round(v * G.order())) for k, v in Pk.items()}
+            bump(res, 'degree_distribution_form_%d' % form)
+            pp, tt, gg = (case['p'] or 0.5), (case['tau'] or 0.7), (case['gamma'] or 1.0)
+            if G.number_of_edges() == 0 or 0 in Pk:
+                bump(res, 'entry:' + name)          # isolated nodes / no edges: outside the domain of the fixed-point relations (0**-1)
+                return res
+            if name == 'Epi_Prob_discrete':
+                args = [Pk, pp]
+            elif name == 'Attack_rate_discrete':
+                args = [Pk, pp]
+                kw = {'rho': 0.05}
+            elif name == 'Attack_rate_cts_time':
+                args = [Pk, tt, gg]
+                kw = {'rho': 0.05}
+            else:
+                args = [Pk]
+                deterministic = False           # returns a function
         elif name == 'estimate_R0':
             args = [G]
             kw = {'tau': case['tau'], 'gamma': case['gamma']}
